@@ -68,12 +68,16 @@ def dispatcher_oracle(kinds_of):
             lists = [None] * len(kinds)
             for pos, j in enumerate(order):
                 lists[j] = got[pos]
-        for t, g in zip(kinds, lists):
+        import os
+        prop = os.environ.get("VERIF_CURRENT_PROP")
+        for j, (t, g) in enumerate(zip(kinds, lists)):
+            if not c.clause_relevant(f"kind{j}-", prop):
+                continue        # this kind's list carries another property's statement (Contract.clause_props)
             if list(g) != want[t]:
                 return {"clause": f"data of kind {t.__qualname__} = the lines first claimed by it, decoded, in file order",
                         "observed": f"got {g!r}, want {want[t]!r}"[:500]}
         warn = [r for r in recs if r.levelno >= logging.WARNING]
-        if len(warn) != unmatched:
+        if len(warn) != unmatched and c.clause_relevant("conservation", prop):
             return {"clause": "one 'unparsable line' warning per line no kind claims", "observed": f"{len(warn)} warnings for {unmatched} unclaimed lines"}
         return None
     return oracle
